@@ -576,16 +576,22 @@ Proof.
   destruct (assoc code keyconv); [apply S1|].
   destruct ((0 <? code) && (code <? 27)); [apply S1|].
   destruct ((27 <? code) && (code <? 32)); [apply S1|].
-  destruct (wide_step em code tl more) as [[[evs' rest']| |e]|] eqn:Ew; try discriminate.
+  destruct (wide_step em code tl more) as [[[evs' rest']| |e]|] eqn:Ew.
+  2: discriminate.
+  2: discriminate.
   { intros H; inversion H; subst. apply G. eapply wide_step_progress; exact Ew. }
-  destruct (utf8_step em code tl more) as [[[evs' rest']| |e]|] eqn:Eu; try discriminate.
+  destruct (utf8_step em code tl more) as [[[evs' rest']| |e]|] eqn:Eu.
+  2: discriminate.
+  2: discriminate.
   { intros H; inversion H; subst. apply G. eapply utf8_step_progress; exact Eu. }
   destruct ((127 <? code) && (code <? 256)); [apply S1|].
   destruct (negb (code =? 27)); [apply S1|].
-  destruct (trie_get tl more) as [[[ev rest']|]| |e] eqn:Et; try discriminate.
+  destruct (trie_get tl more) as [[[ev rest']|]| |e] eqn:Et.
+  3: discriminate. 3: discriminate.
   { intros H; inversion H; subst. apply G. split; [discriminate|]. eapply trie_get_in_suffix; exact Et. }
   destruct tl as [|k tl']; [apply S1|].
-  destruct (process_keyqueue em (k :: tl') more) as [[run rest']| |e] eqn:Ep; try discriminate.
+  destruct (process_keyqueue em (k :: tl') more) as [[run rest']| |e] eqn:Ep.
+  2: discriminate. 2: discriminate.
   intros H. apply meta_wrap_ok in H. destruct H as [He ->]. apply G. split; [exact He|].
   destruct (IH _ _ _ Ep) as [_ [p [_ Hp]]]. exists p; exact Hp.
 Qed.
@@ -595,4 +601,924 @@ Lemma process_shorter em c more evs rest :
 Proof.
   intros H. destruct (process_progress _ _ _ _ _ H) as [_ [p [Hp ->]]].
   rewrite app_length. destruct p; [congruence|cbn; lia].
+Qed.
+
+(* ------------------------------------------------------------------ *)
+(* the parse_input loop *)
+Definition decode (em : encoding) (codes : list Z) (more : bool) : ploop :=
+  parse_loop (length codes) em codes more [].
+
+Definition padd (acc : list event) (r : ploop) : ploop :=
+  match r with
+  | PDone d => PDone (acc ++ d)
+  | PMore d rest => PMore (acc ++ d) rest
+  | PErr e => PErr e
+  | PFuel => PFuel
+  end.
+
+Lemma padd_nil r : padd [] r = r.
+Proof. destruct r; reflexivity. Qed.
+
+Lemma padd_padd a b r : padd a (padd b r) = padd (a ++ b) r.
+Proof. destruct r; cbn; rewrite ?app_assoc; reflexivity. Qed.
+
+Lemma list_len_ind (P : list Z -> Prop) :
+  (forall l, (forall l', (length l' < length l)%nat -> P l') -> P l) -> forall l, P l.
+Proof.
+  intros H l. assert (G : forall n l, (length l <= n)%nat -> P l).
+  { induction n as [|n IH]; intros l0 Hl; apply H; intros l' Hl'; [lia|apply IH; lia]. }
+  apply (G (length l)); lia.
+Qed.
+
+Lemma parse_loop_acc em more fuel : forall codes acc,
+  parse_loop fuel em codes more acc = padd acc (parse_loop fuel em codes more []).
+Proof.
+  induction fuel as [|f IH]; intros codes acc; destruct codes as [|c tl]; cbn [parse_loop padd];
+    rewrite ?app_nil_r; try reflexivity.
+  destruct (process_keyqueue em (c :: tl) more) as [[run rest]| |e]; cbn [padd]; rewrite ?app_nil_r; try reflexivity.
+  rewrite (IH rest (acc ++ run)), (IH rest ([] ++ run)). cbn [app]. rewrite padd_padd. reflexivity.
+Qed.
+
+Lemma parse_loop_fuel em more f1 : forall f2 codes acc,
+  (length codes <= f1)%nat -> (length codes <= f2)%nat ->
+  parse_loop f1 em codes more acc = parse_loop f2 em codes more acc.
+Proof.
+  induction f1 as [|f1 IH]; intros f2 codes acc H1 H2; destruct codes as [|c tl]; cbn in H1, H2;
+    try (destruct f2; reflexivity); try lia.
+  destruct f2 as [|f2]; [lia|]. cbn [parse_loop].
+  destruct (process_keyqueue em (c :: tl) more) as [[run rest]| |e] eqn:E; try reflexivity.
+  apply process_shorter in E. cbn in E. apply IH; lia.
+Qed.
+
+Lemma decode_nil em more : decode em [] more = PDone [].
+Proof. reflexivity. Qed.
+
+Lemma decode_cons em codes more : codes <> [] ->
+  decode em codes more =
+    match process_keyqueue em codes more with
+    | OOk (run, rest) => padd run (decode em rest more)
+    | OMore => PMore [] codes
+    | OErr e => PErr e
+    end.
+Proof.
+  intros Hne. destruct codes as [|c tl]; [congruence|].
+  unfold decode. cbn [length parse_loop].
+  destruct (process_keyqueue em (c :: tl) more) as [[run rest]| |e] eqn:E; try reflexivity.
+  cbn [app]. rewrite parse_loop_acc. f_equal.
+  apply process_shorter in E. cbn in E. apply parse_loop_fuel; lia.
+Qed.
+
+(* termination: the loop never runs out of its len(codes) iterations *)
+Lemma decode_not_fuel em more : forall codes, decode em codes more <> PFuel.
+Proof.
+  apply (list_len_ind (fun codes => decode em codes more <> PFuel)). intros codes IH.
+  destruct codes as [|c tl]; [rewrite decode_nil; discriminate|].
+  rewrite decode_cons by discriminate.
+  destruct (process_keyqueue em (c :: tl) more) as [[run rest]| |e] eqn:E; try discriminate.
+  apply process_shorter in E. specialize (IH rest E).
+  destruct (decode em rest more); cbn; congruence.
+Qed.
+
+(* left to right: the pending codes are a suffix of the input, and they are pending because
+   process_keyqueue asked for more *)
+Lemma decode_more em more : forall codes d rest,
+  decode em codes more = PMore d rest ->
+  is_suffix rest codes /\ rest <> [] /\ process_keyqueue em rest more = OMore.
+Proof.
+  apply (list_len_ind (fun codes => forall d rest, decode em codes more = PMore d rest ->
+     is_suffix rest codes /\ rest <> [] /\ process_keyqueue em rest more = OMore)).
+  intros codes IH d rest. destruct codes as [|c tl]; [rewrite decode_nil; discriminate|].
+  rewrite decode_cons by discriminate.
+  destruct (process_keyqueue em (c :: tl) more) as [[run rest']| |e] eqn:E; try discriminate.
+  - intros H. pose proof (process_shorter _ _ _ _ _ E) as Hs.
+    destruct (decode em rest' more) as [d'|d' r'| |] eqn:Ed; cbn in H; try discriminate.
+    inversion H; subst. destruct (IH rest' Hs _ _ Ed) as [Hsuf [Hne Hm]].
+    split; [|split; assumption].
+    destruct (process_progress _ _ _ _ _ E) as [_ [p [_ Hp]]].
+    eapply is_suffix_trans; [exact Hsuf|]. exists p; exact Hp.
+  - intros H; inversion H; subst. split; [apply is_suffix_refl|]. split; [discriminate|exact E].
+Qed.
+
+Lemma decode_false_not_more em codes d rest : decode em codes false <> PMore d rest.
+Proof.
+  intros H. apply decode_more in H. destruct H as [_ [_ H]].
+  exact (process_false_not_more _ _ H).
+Qed.
+
+(* the key lemma behind fragmentation invariance *)
+Lemma decode_split em b : forall a,
+  decode em (a ++ b) true =
+    match decode em a true with
+    | PDone d => padd d (decode em b true)
+    | PMore d p => padd d (decode em (p ++ b) true)
+    | PErr e => PErr e
+    | PFuel => PFuel
+    end.
+Proof.
+  apply (list_len_ind (fun a => decode em (a ++ b) true =
+    match decode em a true with
+    | PDone d => padd d (decode em b true)
+    | PMore d p => padd d (decode em (p ++ b) true)
+    | PErr e => PErr e
+    | PFuel => PFuel
+    end)).
+  intros a IH. destruct a as [|c tl]; [rewrite decode_nil, padd_nil; reflexivity|].
+  rewrite (decode_cons em (c :: tl)) by discriminate.
+  pose proof (process_ext em (c :: tl) b ltac:(discriminate)) as Hx.
+  destruct (process_keyqueue em (c :: tl) true) as [[run rest]| |e] eqn:E; cbn [ext_res] in Hx.
+  - rewrite (decode_cons em ((c :: tl) ++ b)) by discriminate. rewrite Hx.
+    rewrite (IH rest (process_shorter _ _ _ _ _ E)).
+    destruct (decode em rest true); cbn [padd]; rewrite ?padd_padd; reflexivity.
+  - cbn [padd app]. rewrite padd_nil. reflexivity.
+  - rewrite (decode_cons em ((c :: tl) ++ b)) by discriminate. rewrite Hx. reflexivity.
+Qed.
+
+(* ------------------------------------------------------------------ *)
+(* Screen.parse_input and the Feed/Timeout machine *)
+Definition keys_of (cs : list call) : list event := concat (map c_keys cs).
+Definition raw_of (cs : list call) : list Z := concat (map c_raw cs).
+Definition feed_bytes (o : op) : list Z := match o with Feed bs => bs | Timeout => [] end.
+
+Lemma parse_input_spec em codes more :
+  parse_input em codes more =
+    match decode em codes more with
+    | PDone d => Ok (mkcall d codes, [])
+    | PMore d rest => Ok (mkcall d (firstn (length codes - length rest) codes), rest)
+    | PErr e => Err e
+    | PFuel => Err RuntimeErrorK
+    end.
+Proof. reflexivity. Qed.
+
+Lemma firstn_suffix (p rest : list Z) : firstn (length (p ++ rest) - length rest) (p ++ rest) = p.
+Proof.
+  rewrite app_length. replace (length p + length rest - length rest)%nat with (length p) by lia.
+  rewrite firstn_app, Nat.sub_diag, firstn_all. cbn. apply app_nil_r.
+Qed.
+
+Lemma parse_input_raw em codes more c p :
+  parse_input em codes more = Ok (c, p) -> c_raw c ++ p = codes.
+Proof.
+  rewrite parse_input_spec. destruct (decode em codes more) as [d|d rest| |] eqn:E; try discriminate.
+  - intros H; inversion H; subst. cbn. apply app_nil_r.
+  - intros H; inversion H; subst. cbn.
+    destruct (decode_more _ _ _ _ _ E) as [[q ->] _]. rewrite firstn_suffix. reflexivity.
+Qed.
+
+Definition pending_ok (em : encoding) (st : list Z) : Prop :=
+  st = [] \/ process_keyqueue em st true = OMore.
+
+Lemma decode_pending em st : pending_ok em st ->
+  decode em st true = match st with [] => PDone [] | _ => PMore [] st end.
+Proof.
+  intros [->|H]; [reflexivity|]. destruct st as [|c tl]; [reflexivity|].
+  rewrite decode_cons by discriminate. rewrite H. reflexivity.
+Qed.
+
+Lemma run_cons em st o ops :
+  run em st (o :: ops) =
+    match step em st o with
+    | Err e => ([], [], Some e)
+    | Ok (cs, st') => let '(cs', st'', e) := run em st' ops in (cs ++ cs', st'', e)
+    end.
+Proof. reflexivity. Qed.
+
+Lemma step_feed em st bs :
+  step em st (Feed bs) =
+    match decode em (st ++ bs) true with
+    | PDone d => Ok ([mkcall d (st ++ bs)], [])
+    | PMore d rest => Ok ([mkcall d (firstn (length (st ++ bs) - length rest) (st ++ bs))], rest)
+    | PErr e => Err e
+    | PFuel => Err RuntimeErrorK
+    end.
+Proof.
+  cbn [step]. rewrite parse_input_spec. destruct (decode em (st ++ bs) true); reflexivity.
+Qed.
+
+(* every cutting of the bytes into successive reads, described against one decode of the whole *)
+Lemma feeds_against_whole em : forall pieces st, pending_ok em st ->
+  match decode em (st ++ concat pieces) true with
+  | PDone d => exists calls, run em st (map Feed pieces) = (calls, [], None) /\
+                 keys_of calls = d /\ raw_of calls = st ++ concat pieces
+  | PMore d r => exists calls, run em st (map Feed pieces) = (calls, r, None) /\
+                 keys_of calls = d /\ raw_of calls ++ r = st ++ concat pieces
+  | PErr _ => True
+  | PFuel => True
+  end.
+Proof.
+  induction pieces as [|b bs IH]; intros st Hst.
+  - cbn [concat map]. rewrite app_nil_r, (decode_pending _ _ Hst).
+    destruct st as [|c tl]; exists []; cbn; auto.
+  - cbn [concat map]. rewrite app_assoc, decode_split, run_cons, step_feed.
+    destruct (decode em (st ++ b) true) as [d1|d1 p1| |] eqn:E1; auto.
+    + specialize (IH [] (or_introl eq_refl)). cbn [app] in IH.
+      destruct (decode em (concat bs) true) as [d2|d2 r2| |]; cbn [padd]; auto.
+      * destruct IH as [calls [Hr [Hk Hw]]]. rewrite Hr.
+        eexists; split; [reflexivity|]. unfold keys_of, raw_of in *. cbn [map concat c_keys c_raw app].
+        rewrite Hk, Hw. split; reflexivity.
+      * destruct IH as [calls [Hr [Hk Hw]]]. rewrite Hr.
+        eexists; split; [reflexivity|]. unfold keys_of, raw_of in *. cbn [map concat c_keys c_raw app].
+        rewrite Hk. split; [reflexivity|]. rewrite <- app_assoc, Hw. reflexivity.
+    + destruct (decode_more _ _ _ _ _ E1) as [[q Hq] [Hne Hm]].
+      specialize (IH p1 (or_intror Hm)).
+      rewrite Hq, firstn_suffix.
+      destruct (decode em (p1 ++ concat bs) true) as [d2|d2 r2| |]; cbn [padd]; auto.
+      * destruct IH as [calls [Hr [Hk Hw]]]. rewrite Hr.
+        eexists; split; [reflexivity|]. unfold keys_of, raw_of in *. cbn [map concat c_keys c_raw app].
+        rewrite Hk, Hw. split; [reflexivity|]. rewrite app_assoc. reflexivity.
+      * destruct IH as [calls [Hr [Hk Hw]]]. rewrite Hr.
+        eexists; split; [reflexivity|]. unfold keys_of, raw_of in *. cbn [map concat c_keys c_raw app].
+        rewrite Hk. split; [reflexivity|]. rewrite <- !app_assoc, Hw. reflexivity.
+Qed.
+
+Lemma run_single em st w :
+  run em st [Feed w] =
+    match decode em (st ++ w) true with
+    | PDone d => ([mkcall d (st ++ w)], [], None)
+    | PMore d r => ([mkcall d (firstn (length (st ++ w) - length r) (st ++ w))], r, None)
+    | PErr e => ([], [], Some e)
+    | PFuel => ([], [], Some RuntimeErrorK)
+    end.
+Proof.
+  rewrite run_cons, step_feed. destruct (decode em (st ++ w) true); cbn; rewrite ?app_nil_r; reflexivity.
+Qed.
+
+Lemma fragmentation_from_pending em pieces st calls_w p :
+  pending_ok em st ->
+  run em st [Feed (concat pieces)] = (calls_w, p, None) ->
+  exists calls, run em st (map Feed pieces) = (calls, p, None) /\
+    keys_of calls = keys_of calls_w /\ raw_of calls = raw_of calls_w.
+Proof.
+  intros Hst. rewrite run_single. pose proof (feeds_against_whole em pieces st Hst) as H.
+  destruct (decode em (st ++ concat pieces) true) as [d|d r| |] eqn:E; intros Hw; inversion Hw; subst.
+  - destruct H as [calls [Hr [Hk Hraw]]]. exists calls. split; [exact Hr|].
+    unfold keys_of, raw_of in *. cbn. rewrite !app_nil_r. auto.
+  - destruct H as [calls [Hr [Hk Hraw]]]. exists calls. split; [exact Hr|].
+    unfold keys_of, raw_of in *. cbn. rewrite !app_nil_r. split; [exact Hk|].
+    destruct (decode_more _ _ _ _ _ E) as [[q Hq] _]. rewrite Hq, firstn_suffix.
+    rewrite Hq in Hraw. apply app_inv_tail in Hraw. exact Hraw.
+Qed.
+
+Lemma run_app em : forall ops1 ops2 st cs1 st1,
+  run em st ops1 = (cs1, st1, None) ->
+  run em st (ops1 ++ ops2) = let '(cs2, st2, e) := run em st1 ops2 in (cs1 ++ cs2, st2, e).
+Proof.
+  induction ops1 as [|o ops1 IH]; intros ops2 st cs1 st1 H.
+  - cbn in H. inversion H; subst. cbn. destruct (run em st1 ops2) as [[a b] c]. reflexivity.
+  - cbn [app]. rewrite run_cons in *. destruct (step em st o) as [[cs st']|e]; [|discriminate].
+    destruct (run em st' ops1) as [[cs' st''] e'] eqn:E. inversion H; subst.
+    rewrite (IH ops2 _ _ _ E). destruct (run em st1 ops2) as [[a b] c]. rewrite app_assoc. reflexivity.
+Qed.
+
+Lemma keys_of_app a b : keys_of (a ++ b) = keys_of a ++ keys_of b.
+Proof. unfold keys_of. rewrite map_app, concat_app. reflexivity. Qed.
+Lemma raw_of_app a b : raw_of (a ++ b) = raw_of a ++ raw_of b.
+Proof. unfold raw_of. rewrite map_app, concat_app. reflexivity. Qed.
+
+(* ... and whatever the event loop does afterwards (more reads, the alarm) sees the same thing *)
+Lemma fragmentation_then em pieces later calls_w p :
+  run em [] (Feed (concat pieces) :: later) = (calls_w, p, None) ->
+  exists calls, run em [] (map Feed pieces ++ later) = (calls, p, None) /\
+    keys_of calls = keys_of calls_w /\ raw_of calls = raw_of calls_w.
+Proof.
+  intros H. change (Feed (concat pieces) :: later) with ([Feed (concat pieces)] ++ later) in H.
+  destruct (run em [] [Feed (concat pieces)]) as [[c1 p1] e1] eqn:E1.
+  destruct e1 as [err|].
+  - exfalso. rewrite run_single in E1. cbn [app] in H.
+    rewrite run_cons, step_feed in H.
+    destruct (decode em ([] ++ concat pieces) true); try discriminate; inversion E1.
+  - destruct (fragmentation_from_pending em pieces [] c1 p1 (or_introl eq_refl) E1) as [calls1 [Hr [Hk Hraw]]].
+    rewrite (run_app em _ later _ _ _ E1) in H. rewrite (run_app em _ later _ _ _ Hr).
+    destruct (run em p1 later) as [[cs2 st2] e2]. inversion H; subst.
+    eexists; split; [reflexivity|]. rewrite !keys_of_app, !raw_of_app, Hk, Hraw. auto.
+Qed.
+
+(* the completion alarm: exactly the pending codes, decoded with more_available = False,
+   and nothing is left pending *)
+Lemma timeout_step em st : st <> [] ->
+  match decode em st false with
+  | PDone d => step em st Timeout = Ok ([mkcall d st], [])
+  | PErr e => step em st Timeout = Err e
+  | PMore _ _ => False
+  | PFuel => False
+  end.
+Proof.
+  intros Hne. destruct st as [|c tl]; [congruence|]. cbn [step]. rewrite parse_input_spec.
+  destruct (decode em (c :: tl) false) as [d|d r| |] eqn:E; try reflexivity.
+  - exact (decode_false_not_more _ _ _ _ E).
+  - exact (decode_not_fuel _ _ _ E).
+Qed.
+
+Lemma step_conserves em st o cs st' :
+  step em st o = Ok (cs, st') -> raw_of cs ++ st' = st ++ feed_bytes o.
+Proof.
+  destruct o as [bs|]; cbn [step feed_bytes].
+  - destruct (parse_input em (st ++ bs) true) as [[c p]|e] eqn:E; cbn; [|discriminate].
+    intros H; inversion H; subst. unfold raw_of; cbn. rewrite app_nil_r. eapply parse_input_raw; exact E.
+  - destruct st as [|c0 tl]; [intros H; inversion H; reflexivity|].
+    destruct (parse_input em (c0 :: tl) false) as [[c p]|e] eqn:E; cbn; [|discriminate].
+    intros H; inversion H; subst. unfold raw_of; cbn. rewrite !app_nil_r. eapply parse_input_raw; exact E.
+Qed.
+
+(* over any schedule of reads and alarms: the raw codes handed to the callback, in order, followed
+   by what is still pending, are exactly the bytes read *)
+Lemma run_conserves em : forall ops st calls p,
+  run em st ops = (calls, p, None) -> raw_of calls ++ p = st ++ concat (map feed_bytes ops).
+Proof.
+  induction ops as [|o ops IH]; intros st calls p H.
+  - cbn in H. inversion H; subst. cbn. rewrite app_nil_r. reflexivity.
+  - rewrite run_cons in H. destruct (step em st o) as [[cs st']|e] eqn:E; [|discriminate].
+    destruct (run em st' ops) as [[cs' st''] e'] eqn:E'. inversion H; subst.
+    rewrite raw_of_app, <- app_assoc, (IH _ _ _ E'). cbn [map concat].
+    rewrite !app_assoc. f_equal. eapply step_conserves; exact E.
+Qed.
+
+(* ------------------------------------------------------------------ *)
+(* documented names: every table entry decodes to its name, whatever follows *)
+Lemma zs_eqb_eq a : forall b, zs_eqb a b = true -> a = b.
+Proof.
+  induction a as [|x a IH]; intros [|y b] H; cbn in H; try discriminate; [reflexivity|].
+  apply andb_true_iff in H. destruct H as [H1 H2]. apply Z.eqb_eq in H1. subst. f_equal. apply IH; exact H2.
+Qed.
+
+Definition check_key (o : outcome res) (name : list Z) : bool :=
+  match o with
+  | OOk ([Key n], []) => zs_eqb n name
+  | _ => false
+  end.
+
+Definition entry_ok (em : encoding) (e : list Z * list Z) : bool :=
+  let '(s, name) := e in
+  if zs_eqb name str_mouse || zs_eqb name str_sgrmouse then true
+  else check_key (process_keyqueue em (27 :: s) true) name.
+
+Lemma table_ok : forall em, forallb (entry_ok em) input_sequences = true.
+Proof. intros []; vm_compute; reflexivity. Qed.
+
+Lemma check_key_eq o name : check_key o name = true -> o = OOk ([Key name], []).
+Proof.
+  unfold check_key. destruct o as [[evs rest]| |e]; try discriminate.
+  destruct evs as [|[n| | |] [|? ?]]; try discriminate. destruct rest; try discriminate.
+  intros H. apply zs_eqb_eq in H. subst. reflexivity.
+Qed.
+
+Lemma table_entries_decode_proof em s name rest more :
+  In (s, name) input_sequences ->
+  zs_eqb name str_mouse = false -> zs_eqb name str_sgrmouse = false ->
+  process_keyqueue em (27 :: s ++ rest) more = OOk ([Key name], rest).
+Proof.
+  intros Hin Hm Hs. pose proof (table_ok em) as H. rewrite forallb_forall in H. specialize (H _ Hin).
+  cbn [entry_ok] in H. rewrite Hm, Hs in H. cbn [orb] in H. apply check_key_eq in H.
+  pose proof (process_ext em (27 :: s) rest ltac:(discriminate)) as Hx. rewrite H in Hx. cbn [ext_res app] in Hx.
+  destruct more; [exact Hx|].
+  pose proof (process_flag em (27 :: s ++ rest)) as Hf. rewrite Hx in Hf. exact Hf.
+Qed.
+
+(* ------------------------------------------------------------------ *)
+(* ESC: the dispatch reaches the trie *)
+Lemma keyconv_esc : assoc 27 keyconv = None.
+Proof. vm_compute. reflexivity. Qed.
+
+Lemma process_esc em tl more :
+  process_keyqueue em (27 :: tl) more =
+    match trie_get tl more with
+    | OMore => OMore
+    | OErr e => OErr e
+    | OOk (Some (ev, rest)) => OOk ([ev], rest)
+    | OOk None =>
+        match tl with
+        | [] => OOk ([Key str_esc], tl)
+        | _ :: _ =>
+            match process_keyqueue em tl more with
+            | OOk (run, rest) => meta_wrap run rest
+            | OMore => OMore
+            | OErr e => OErr e
+            end
+        end
+    end.
+Proof.
+  rewrite process_eq, keyconv_esc.
+  assert (Ew : wide_step em 27 tl more = None).
+  { unfold wide_step.
+    assert (E : enc_is_wide em && (27 <? 256) && negb (within_double_byte [27] 0 0 =? 0) = false)
+      by (destruct em; vm_compute; reflexivity).
+    rewrite E. reflexivity. }
+  assert (Eu : utf8_step em 27 tl more = None).
+  { unfold utf8_step.
+    assert (E : enc_is_utf8 em && (127 <? 27) && (27 <? 256) = false) by (destruct em; vm_compute; reflexivity).
+    rewrite E. reflexivity. }
+  rewrite Ew, Eu. reflexivity.
+Qed.
+
+Definition sub_trie (t : trie) (k : Z) : option trie :=
+  match t with TNode ch => assoc k ch | TLeaf _ => None end.
+
+Lemma get_recurse_sub t k t' keys more :
+  sub_trie t k = Some t' -> get_recurse t (k :: keys) more = get_recurse t' keys more.
+Proof. destruct t as [n|ch]; cbn [sub_trie]; [discriminate|]. intros H. rewrite get_recurse_node, H. reflexivity. Qed.
+
+Lemma input_trie_mouse :
+  match sub_trie input_trie 91 with Some t => sub_trie t 77 | None => None end = Some (TLeaf str_mouse).
+Proof. vm_compute. reflexivity. Qed.
+
+Lemma trie_get_mouse keys more :
+  trie_get (91 :: 77 :: keys) more =
+    match read_mouse_info keys more with
+    | OOk None => read_cursor_position (91 :: 77 :: keys) more
+    | o => o
+    end.
+Proof.
+  unfold trie_get, trie_get_in. pose proof input_trie_mouse as H.
+  destruct (sub_trie input_trie 91) as [t|] eqn:E1; [|discriminate].
+  rewrite (get_recurse_sub _ _ _ _ _ E1), (get_recurse_sub _ _ _ _ _ H), get_recurse_leaf.
+  change (zs_eqb str_mouse str_mouse) with true. cbn iota.
+  destruct (read_mouse_info keys more) as [[[ev rest]|]| |e]; reflexivity.
+Qed.
+
+(* X10 mouse report: one event, coordinates byte - 33, nothing after it is touched *)
+Lemma x10_mouse_decodes_proof em b x y rest more :
+  process_keyqueue em (27 :: 91 :: 77 :: b :: x :: y :: rest) more = OOk ([x10_event b x y], rest).
+Proof. rewrite process_esc, trie_get_mouse. reflexivity. Qed.
+
+Lemma x10_event_coords b x y :
+  exists name button, x10_event b x y = Mouse name button ((x - 33) mod 256) ((y - 33) mod 256).
+Proof. unfold x10_event. break_match; eexists; eexists; reflexivity. Qed.
+
+(* cursor position report, in terms of the digit strings *)
+Definition digits_val (ds : list Z) : Z := fold_left (fun acc k => acc * 10 + k - 48) ds 0.
+Definition is_digit (k : Z) : bool := (48 <=? k) && (k <=? 57).
+(* a decimal numeral without a leading zero *)
+Definition numeral (ds : list Z) : bool :=
+  match ds with
+  | [] => false
+  | d :: _ => forallb is_digit ds && negb (d =? 48)
+  end.
+
+Lemma is_digit_range k : is_digit k = true -> 48 <= k <= 57.
+Proof. unfold is_digit. intros H. apply andb_true_iff in H. destruct H as [H1 H2]. apply Z.leb_le in H1, H2. lia. Qed.
+
+Lemma cpr_y_digits r : forall ds acc, forallb is_digit ds = true -> 0 < acc ->
+  cpr_y (ds ++ 59 :: r) acc = CYBreak (fold_left (fun a k => a * 10 + k - 48) ds acc) r.
+Proof.
+  induction ds as [|d ds IH]; intros acc Hd Hacc; cbn [app cpr_y fold_left].
+  - change (59 =? 59) with true. cbn iota. destruct (acc =? 0) eqn:E; [apply Z.eqb_eq in E; lia|reflexivity].
+  - cbn [forallb] in Hd. apply andb_true_iff in Hd. destruct Hd as [Hd1 Hd2]. apply is_digit_range in Hd1.
+    destruct (d =? 59) eqn:E1; [apply Z.eqb_eq in E1; lia|].
+    destruct ((d <? 48) || (57 <? d)) eqn:E2.
+    { apply orb_true_iff in E2. destruct E2 as [E2|E2]; apply Z.ltb_lt in E2; lia. }
+    destruct ((acc =? 0) && (d =? 48)) eqn:E3.
+    { apply andb_true_iff in E3. destruct E3 as [E3 _]. apply Z.eqb_eq in E3. lia. }
+    apply IH; [exact Hd2|lia].
+Qed.
+
+Lemma cpr_x_digits r : forall ds acc, forallb is_digit ds = true -> 0 < acc ->
+  cpr_x (ds ++ 82 :: r) acc = CXDone (fold_left (fun a k => a * 10 + k - 48) ds acc) r.
+Proof.
+  induction ds as [|d ds IH]; intros acc Hd Hacc; cbn [app cpr_x fold_left].
+  - change (82 =? 82) with true. cbn iota. destruct (acc =? 0) eqn:E; [apply Z.eqb_eq in E; lia|reflexivity].
+  - cbn [forallb] in Hd. apply andb_true_iff in Hd. destruct Hd as [Hd1 Hd2]. apply is_digit_range in Hd1.
+    destruct (d =? 82) eqn:E1; [apply Z.eqb_eq in E1; lia|].
+    destruct ((d <? 48) || (57 <? d)) eqn:E2.
+    { apply orb_true_iff in E2. destruct E2 as [E2|E2]; apply Z.ltb_lt in E2; lia. }
+    destruct ((acc =? 0) && (d =? 48)) eqn:E3.
+    { apply andb_true_iff in E3. destruct E3 as [E3 _]. apply Z.eqb_eq in E3. lia. }
+    apply IH; [exact Hd2|lia].
+Qed.
+
+Lemma numeral_first ds : numeral ds = true ->
+  exists d ds', ds = d :: ds' /\ 49 <= d <= 57 /\ forallb is_digit ds' = true.
+Proof.
+  destruct ds as [|d ds']; cbn [numeral]; [discriminate|]. intros H.
+  apply andb_true_iff in H. destruct H as [H1 H2]. cbn [forallb] in H1.
+  apply andb_true_iff in H1. destruct H1 as [H1 H3]. apply is_digit_range in H1.
+  apply negb_true_iff, Z.eqb_neq in H2. exists d, ds'. repeat split; try lia; exact H3.
+Qed.
+
+Lemma cpr_y_numeral ds r : numeral ds = true -> cpr_y (ds ++ 59 :: r) 0 = CYBreak (digits_val ds) r.
+Proof.
+  intros H. destruct (numeral_first _ H) as [d [ds' [-> [Hd Hds]]]].
+  unfold digits_val. cbn [app cpr_y fold_left].
+  destruct (d =? 59) eqn:E1; [apply Z.eqb_eq in E1; lia|].
+  destruct ((d <? 48) || (57 <? d)) eqn:E2.
+  { apply orb_true_iff in E2. destruct E2 as [E2|E2]; apply Z.ltb_lt in E2; lia. }
+  destruct ((0 =? 0) && (d =? 48)) eqn:E3.
+  { apply andb_true_iff in E3. destruct E3 as [_ E3]. apply Z.eqb_eq in E3. lia. }
+  apply cpr_y_digits; [exact Hds|lia].
+Qed.
+
+Lemma cpr_x_numeral ds r : numeral ds = true -> cpr_x (ds ++ 82 :: r) 0 = CXDone (digits_val ds) r.
+Proof.
+  intros H. destruct (numeral_first _ H) as [d [ds' [-> [Hd Hds]]]].
+  unfold digits_val. cbn [app cpr_x fold_left].
+  destruct (d =? 82) eqn:E1; [apply Z.eqb_eq in E1; lia|].
+  destruct ((d <? 48) || (57 <? d)) eqn:E2.
+  { apply orb_true_iff in E2. destruct E2 as [E2|E2]; apply Z.ltb_lt in E2; lia. }
+  destruct ((0 =? 0) && (d =? 48)) eqn:E3.
+  { apply andb_true_iff in E3. destruct E3 as [_ E3]. apply Z.eqb_eq in E3. lia. }
+  apply cpr_x_digits; [exact Hds|lia].
+Qed.
+
+(* ESC [ y ; x R with decimal numerals y, x (no leading zero), when no table entry matches
+   (ESC [ 1 ; n R, n <= 8, is "modified F3" in the table) *)
+Lemma cursor_position_decodes_proof em ys xs rest more :
+  numeral ys = true -> numeral xs = true ->
+  get_recurse input_trie (91 :: ys ++ 59 :: xs ++ 82 :: rest) more = OOk None ->
+  process_keyqueue em (27 :: 91 :: ys ++ 59 :: xs ++ 82 :: rest) more
+    = OOk ([CursorPos (digits_val xs - 1) (digits_val ys - 1)], rest).
+Proof.
+  intros Hy Hx Ht. rewrite process_esc. unfold trie_get, trie_get_in. rewrite Ht.
+  cbn [read_cursor_position]. change (negb (91 =? 91)) with false. cbn iota.
+  rewrite (cpr_y_numeral _ _ Hy).
+  destruct (numeral_first _ Hx) as [d [xs' [Ex _]]].
+  destruct (xs ++ 82 :: rest) as [|k2 r2] eqn:E; [subst xs; discriminate E|].
+  rewrite <- E. rewrite (cpr_x_numeral _ _ Hx). reflexivity.
+Qed.
+
+(* ------------------------------------------------------------------ *)
+(* unknown bytes pass through *)
+Lemma byte_forall (f : Z -> bool) :
+  forallb (fun n => f (Z.of_nat n)) (seq 0 256) = true -> forall b, 0 <= b < 256 -> f b = true.
+Proof.
+  intros H b Hb. rewrite forallb_forall in H. specialize (H (Z.to_nat b)).
+  rewrite Z2Nat.id in H by lia. apply H. apply in_seq. lia.
+Qed.
+
+Definition passthrough_byte (em : encoding) (b : Z) : bool :=
+  (0 <=? b) && (b <? 256) && negb (b =? 27) &&
+  match em with
+  | Utf8 => (b <? 192) || (248 <=? b)
+  | Wide => b <? 128
+  | Narrow => true
+  end.
+
+Lemma utf8_no_lead : forall b, 0 <= b < 256 ->
+  implb ((b <? 192) || (248 <=? b))
+        (negb (Z.land b 224 =? 192) && negb (Z.land b 240 =? 224) && negb (Z.land b 248 =? 240)) = true.
+Proof. apply byte_forall. vm_compute. reflexivity. Qed.
+
+Lemma wdb_low : forall b, 0 <= b < 256 ->
+  implb (b <? 128) (within_double_byte [b] 0 0 =? 0) = true.
+Proof. apply byte_forall. vm_compute. reflexivity. Qed.
+
+Lemma unknown_bytes_pass_through_proof em b tl more :
+  passthrough_byte em b = true -> exists ev, process_keyqueue em (b :: tl) more = OOk ([ev], tl).
+Proof.
+  unfold passthrough_byte. intros H.
+  apply andb_true_iff in H. destruct H as [H Hem].
+  apply andb_true_iff in H. destruct H as [H Hesc].
+  apply andb_true_iff in H. destruct H as [H0 H1]. apply Z.leb_le in H0. apply Z.ltb_lt in H1.
+  rewrite process_eq.
+  destruct ((32 <=? b) && (b <=? 126)); [eexists; reflexivity|].
+  destruct (assoc b keyconv); [eexists; reflexivity|].
+  destruct ((0 <? b) && (b <? 27)); [eexists; reflexivity|].
+  destruct ((27 <? b) && (b <? 32)); [eexists; reflexivity|].
+  assert (Ew : wide_step em b tl more = None).
+  { unfold wide_step. destruct em; try reflexivity. cbn [enc_is_wide andb].
+    pose proof (wdb_low b (conj H0 H1)) as Hw. rewrite Hem in Hw. cbn [implb] in Hw.
+    rewrite Hw. rewrite andb_false_r. reflexivity. }
+  rewrite Ew.
+  destruct em.
+  - (* utf8 *)
+    unfold utf8_step. cbn [enc_is_utf8 andb].
+    destruct ((127 <? b) && (b <? 256)) eqn:E.
+    + pose proof (utf8_no_lead b (conj H0 H1)) as Hn. rewrite Hem in Hn. cbn [implb] in Hn.
+      apply andb_true_iff in Hn. destruct Hn as [Hn Hn3]. apply andb_true_iff in Hn. destruct Hn as [Hn1 Hn2].
+      apply negb_true_iff in Hn1, Hn2, Hn3. rewrite Hn1, Hn2, Hn3. eexists; reflexivity.
+    + rewrite Hesc. eexists; reflexivity.
+  - unfold utf8_step. cbn [enc_is_utf8 andb].
+    destruct ((127 <? b) && (b <? 256)); [eexists; reflexivity|]. rewrite Hesc. eexists; reflexivity.
+  - unfold utf8_step. cbn [enc_is_utf8 andb].
+    destruct ((127 <? b) && (b <? 256)); [eexists; reflexivity|]. rewrite Hesc. eexists; reflexivity.
+Qed.
+
+(* a run of unknown bytes in front of anything: one event each, then what follows decodes as it would alone *)
+Lemma unknown_prefix_proof em more s : forall g, forallb (passthrough_byte em) g = true ->
+  exists evs, length evs = length g /\ decode em (g ++ s) more = padd evs (decode em s more).
+Proof.
+  induction g as [|b g IH]; intros H.
+  - exists []. split; [reflexivity|]. rewrite padd_nil. reflexivity.
+  - cbn [forallb] in H. apply andb_true_iff in H. destruct H as [Hb Hg].
+    destruct (IH Hg) as [evs [Hl Hd]].
+    destruct (unknown_bytes_pass_through_proof em b (g ++ s) more Hb) as [ev Hev].
+    exists (ev :: evs). split; [cbn; lia|].
+    cbn [app]. rewrite decode_cons by discriminate. rewrite Hev, Hd, padd_padd. reflexivity.
+Qed.
+
+(* ------------------------------------------------------------------ *)
+(* exceptions *)
+Definition is_byte (b : Z) : Prop := 0 <= b < 256.
+
+(* events on which the meta block cannot fail *)
+Definition ev_ok (ev : event) : bool :=
+  match ev with
+  | Key _ => true
+  | Mouse _ _ _ _ => is_mouse_event ev
+  | _ => false
+  end.
+
+Lemma x10_event_ok k0 k1 k2 : ev_ok (x10_event k0 k1 k2) = true.
+Proof. unfold x10_event. break_match; vm_compute; reflexivity. Qed.
+
+Lemma sgr_event_ok body t ev : sgr_event body t = OOk (Some ev) -> ev_ok ev = true.
+Proof.
+  unfold sgr_event.
+  destruct (map py_int (split_on 59 body)) as [|[b|] [|[x|] [|[y|] [|? ?]]]]; try discriminate.
+  destruct (t =? 77).
+  - intros H; inversion H; subst. break_match; vm_compute; reflexivity.
+  - destruct (t =? 109); [|discriminate]. intros H; inversion H; subst. break_match; vm_compute; reflexivity.
+Qed.
+
+Lemma sgr_event_no_err body t e : t = 77 \/ t = 109 -> sgr_event body t <> OErr e.
+Proof.
+  intros Ht. unfold sgr_event.
+  destruct (map py_int (split_on 59 body)) as [|[b|] [|[x|] [|[y|] [|? ?]]]]; try discriminate.
+  destruct Ht as [->| ->].
+  - change (77 =? 77) with true. discriminate.
+  - change (109 =? 77) with false. change (109 =? 109) with true. discriminate.
+Qed.
+
+Lemma read_sgrmouse_info_res keys more :
+  match read_sgrmouse_info keys more with
+  | OOk (Some (ev, _)) => ev_ok ev = true
+  | OErr _ => False
+  | _ => True
+  end.
+Proof.
+  unfold read_sgrmouse_info. destruct keys as [|k keys]; [destruct more; exact I|].
+  destruct (sgr_scan (k :: keys)) as [[[v t] r]|] eqn:E; [|destruct more; exact I].
+  pose proof (sgr_event_no_err v t) as Hn. pose proof (sgr_event_ok v t) as Ho.
+  destruct (sgr_event v t) as [[ev|]| |e]; auto.
+  eapply Hn; [eapply sgr_scan_term; exact E|reflexivity].
+Qed.
+
+Lemma read_mouse_info_res keys more :
+  match read_mouse_info keys more with
+  | OOk (Some (ev, _)) => ev_ok ev = true
+  | OErr _ => False
+  | _ => True
+  end.
+Proof.
+  destruct keys as [|k0 [|k1 [|k2 r]]]; cbn [read_mouse_info]; try (destruct more; exact I).
+  apply x10_event_ok.
+Qed.
+
+Lemma get_recurse_res keys : forall root more,
+  match get_recurse root keys more with
+  | OOk (Some (ev, _)) => ev_ok ev = true
+  | OErr _ => False
+  | _ => True
+  end.
+Proof.
+  induction keys as [|k keys IH]; intros root more; destruct root as [name|ch].
+  - rewrite get_recurse_leaf. destruct (zs_eqb name str_mouse); [apply read_mouse_info_res|].
+    destruct (zs_eqb name str_sgrmouse); [apply read_sgrmouse_info_res|reflexivity].
+  - cbn. destruct more; exact I.
+  - rewrite get_recurse_leaf. destruct (zs_eqb name str_mouse); [apply read_mouse_info_res|].
+    destruct (zs_eqb name str_sgrmouse); [apply read_sgrmouse_info_res|reflexivity].
+  - rewrite get_recurse_node. destruct (assoc k ch); [apply IH|exact I].
+Qed.
+
+Lemma read_cursor_position_res keys more :
+  match read_cursor_position keys more with
+  | OOk (Some (ev, _)) => exists x y, ev = CursorPos x y
+  | OErr _ => False
+  | _ => True
+  end.
+Proof.
+  unfold read_cursor_position. destruct keys as [|k0 r]; [destruct more; exact I|].
+  destruct (negb (k0 =? 91)); [exact I|].
+  destruct (cpr_y r 0) as [|y r2|y]; try (destruct more; exact I).
+  destruct r2 as [|k2 r2]; [destruct more; exact I|].
+  destruct (cpr_x (k2 :: r2) 0) as [|x rest|]; try (destruct more; exact I).
+  eexists; eexists; reflexivity.
+Qed.
+
+(* the trie never raises; what it returns is a key name, a mouse event, or a cursor position *)
+Lemma trie_get_res keys more :
+  match trie_get keys more with
+  | OOk (Some (ev, _)) => ev_ok ev = true \/ exists x y, ev = CursorPos x y
+  | OErr _ => False
+  | _ => True
+  end.
+Proof.
+  unfold trie_get, trie_get_in. pose proof (get_recurse_res keys input_trie more) as H.
+  destruct (get_recurse input_trie keys more) as [[[ev rest]|]| |e]; auto.
+  pose proof (read_cursor_position_res keys more) as H2.
+  destruct (read_cursor_position keys more) as [[[ev rest]|]| |e]; auto.
+Qed.
+
+Lemma wide_step_no_err em code tl more e : wide_step em code tl more <> Some (OErr e).
+Proof. unfold wide_step. break_match; discriminate. Qed.
+
+Lemma utf8_step_no_err em code tl more e : utf8_step em code tl more <> Some (OErr e).
+Proof. unfold utf8_step. break_match; discriminate. Qed.
+
+Lemma wide_step_keys em code tl more evs rest :
+  wide_step em code tl more = Some (OOk (evs, rest)) -> exists s, evs = [Key s].
+Proof. unfold wide_step. break_match; try discriminate. intros H; inversion H; subst. eexists; reflexivity. Qed.
+
+Lemma utf8_step_keys em code tl more evs rest :
+  utf8_step em code tl more = Some (OOk (evs, rest)) -> exists s, evs = [Key s].
+Proof.
+  unfold utf8_step, angle. break_match; try discriminate; intros H; inversion H; subst; eexists; reflexivity.
+Qed.
+
+(* _keyconv maps only -1 to None (by computation on the generated table) *)
+Lemma assoc_in {B} k (l : list (Z * B)) v : assoc k l = Some v -> In (k, v) l.
+Proof.
+  induction l as [|[k' v'] l IH]; unfold assoc; fold (@assoc B); [discriminate|].
+  destruct (k =? k') eqn:E; [apply Z.eqb_eq in E; subst; intros H; inversion H; left; reflexivity|].
+  intros H. right. apply IH; exact H.
+Qed.
+
+Lemma keyconv_none_negative :
+  forallb (fun kv => match snd kv with None => fst kv <? 0 | Some _ => true end) keyconv = true.
+Proof. vm_compute. reflexivity. Qed.
+
+Lemma keyconv_byte code v : 0 <= code -> assoc code keyconv = Some v -> exists n, v = Some n.
+Proof.
+  intros Hc H. apply assoc_in in H. pose proof keyconv_none_negative as K.
+  rewrite forallb_forall in K. specialize (K _ H). cbn [fst snd] in K.
+  destruct v as [n|]; [exists n; reflexivity|]. apply Z.ltb_lt in K. lia.
+Qed.
+
+Lemma meta_wrap_first_key run rest evs rest' :
+  meta_wrap run rest = OOk (evs, rest') -> exists s rt, evs = Key s :: rt.
+Proof.
+  unfold meta_wrap. destruct run as [|r0 rt]; [discriminate|].
+  destruct (is_mouse_event r0); [intros H; inversion H; subst; eexists; eexists; reflexivity|].
+  destruct r0; try discriminate.
+  destruct (zs_eqb name str_esc || contains_sub str_meta name); intros H; inversion H; subst;
+    eexists; eexists; reflexivity.
+Qed.
+
+(* the first reported event is harmless for an enclosing ESC, unless it is a cursor position report
+   that came straight from the trie *)
+Lemma process_first_event em c more r0 rt rest :
+  Forall is_byte c ->
+  process_keyqueue em c more = OOk (r0 :: rt, rest) ->
+  ev_ok r0 = true \/
+  exists x y tl, r0 = CursorPos x y /\ rt = [] /\ c = 27 :: tl /\ trie_get tl more = OOk (Some (CursorPos x y, rest)).
+Proof.
+  intros Hb. destruct c as [|code tl]; [cbn; discriminate|].
+  inversion Hb as [|? ? Hcode Htl]; subst. destruct Hcode as [Hc0 Hc1].
+  rewrite process_eq.
+  destruct ((32 <=? code) && (code <=? 126)); [intros H; inversion H; subst; left; reflexivity|].
+  destruct (assoc code keyconv) as [v|] eqn:Ek.
+  { destruct (keyconv_byte _ _ Hc0 Ek) as [n ->]. intros H; inversion H; subst. left; reflexivity. }
+  destruct ((0 <? code) && (code <? 27)); [intros H; inversion H; subst; left; reflexivity|].
+  destruct ((27 <? code) && (code <? 32)); [intros H; inversion H; subst; left; reflexivity|].
+  destruct (wide_step em code tl more) as [[[evs' rest']| |e]|] eqn:Ew.
+  2: discriminate. 2: discriminate.
+  { destruct (wide_step_keys _ _ _ _ _ _ Ew) as [s ->]. intros H; inversion H; subst. left; reflexivity. }
+  destruct (utf8_step em code tl more) as [[[evs' rest']| |e]|] eqn:Eu.
+  2: discriminate. 2: discriminate.
+  { destruct (utf8_step_keys _ _ _ _ _ _ Eu) as [s ->]. intros H; inversion H; subst. left; reflexivity. }
+  destruct ((127 <? code) && (code <? 256)); [intros H; inversion H; subst; left; reflexivity|].
+  destruct (negb (code =? 27)) eqn:E27; [intros H; inversion H; subst; left; reflexivity|].
+  apply negb_false_iff, Z.eqb_eq in E27. subst code.
+  pose proof (trie_get_res tl more) as Hr.
+  destruct (trie_get tl more) as [[[ev rest']|]| |e] eqn:Et.
+  3: discriminate. 3: discriminate.
+  { intros H; inversion H; subst. destruct Hr as [Hr|[x [y ->]]]; [left; exact Hr|].
+    right. exists x, y, tl. auto. }
+  destruct tl as [|k tl']; [intros H; inversion H; subst; left; reflexivity|].
+  destruct (process_keyqueue em (k :: tl') more) as [[run rest']| |e].
+  2: discriminate. 2: discriminate.
+  intros H. destruct (meta_wrap_first_key _ _ _ _ H) as [s [rt' E]]. inversion E; subst. left; reflexivity.
+Qed.
+
+Lemma meta_wrap_err run rest e :
+  meta_wrap run rest = OErr e ->
+  run = [] \/ (e = AttributeErrorK /\ exists r0 rt, run = r0 :: rt /\ ev_ok r0 = false).
+Proof.
+  unfold meta_wrap. destruct run as [|r0 rt]; [left; reflexivity|].
+  destruct (is_mouse_event r0) eqn:Em; [discriminate|].
+  destruct r0; try (intros H; inversion H; subst; right; split; [reflexivity|]; eexists; eexists; split; [reflexivity|]; cbn [ev_ok]; try reflexivity; exact Em).
+  destruct (zs_eqb name str_esc || contains_sub str_meta name); discriminate.
+Qed.
+
+(* never_raises, partial form: a non-empty byte string can make process_keyqueue raise in exactly
+   one way - AttributeError, when one or more ESC bytes precede a complete cursor position report *)
+Lemma process_err_shape em more : forall c e,
+  Forall is_byte c -> c <> [] -> process_keyqueue em c more = OErr e ->
+  e = AttributeErrorK /\
+  exists n tl x y rest, (1 <= n)%nat /\ c = repeat 27 n ++ 27 :: tl /\
+    trie_get tl more = OOk (Some (CursorPos x y, rest)).
+Proof.
+  induction c as [|code tl IH]; intros e Hb Hne; [congruence|].
+  inversion Hb as [|? ? Hcode Htl]; subst.
+  rewrite process_eq.
+  destruct ((32 <=? code) && (code <=? 126)); [discriminate|].
+  destruct (assoc code keyconv); [discriminate|].
+  destruct ((0 <? code) && (code <? 27)); [discriminate|].
+  destruct ((27 <? code) && (code <? 32)); [discriminate|].
+  pose proof (wide_step_no_err em code tl more) as Hw.
+  destruct (wide_step em code tl more) as [[[evs' rest']| |e']|].
+  1: discriminate. 1: discriminate. 1: intros _; exfalso; eapply Hw; reflexivity.
+  pose proof (utf8_step_no_err em code tl more) as Hu.
+  destruct (utf8_step em code tl more) as [[[evs' rest']| |e']|].
+  1: discriminate. 1: discriminate. 1: intros _; exfalso; eapply Hu; reflexivity.
+  destruct ((127 <? code) && (code <? 256)); [discriminate|].
+  destruct (negb (code =? 27)) eqn:E27; [discriminate|].
+  apply negb_false_iff, Z.eqb_eq in E27. subst code.
+  pose proof (trie_get_res tl more) as Hr.
+  destruct (trie_get tl more) as [[[ev rest']|]| |e'].
+  1: discriminate. 2: discriminate. 2: contradiction.
+  destruct tl as [|k tl']; [discriminate|].
+  destruct (process_keyqueue em (k :: tl') more) as [[run rest']| |e'] eqn:Ep.
+  - intros H. apply meta_wrap_err in H. destruct H as [->|[-> [r0 [rt [-> Hok]]]]].
+    + destruct (process_progress _ _ _ _ _ Ep) as [Hn _]. congruence.
+    + split; [reflexivity|].
+      destruct (process_first_event _ _ _ _ _ _ Htl Ep) as [Hk|[x [y [tl2 [-> [_ [E2 Ht2]]]]]]]; [congruence|].
+      exists 1%nat, tl2, x, y, rest'. split; [lia|]. split; [cbn; rewrite E2; reflexivity|exact Ht2].
+  - discriminate.
+  - intros H; inversion H; subst.
+    destruct (IH e Htl ltac:(discriminate) eq_refl) as [-> [n [tl2 [x [y [r [Hn [E2 Ht2]]]]]]]].
+    split; [reflexivity|]. exists (S n), tl2, x, y, r. split; [lia|]. split; [cbn; rewrite E2; reflexivity|exact Ht2].
+Qed.
+
+Lemma process_no_err_unless_double_esc em c more e :
+  Forall is_byte c -> c <> [] -> (forall t, c <> 27 :: 27 :: t) -> process_keyqueue em c more <> OErr e.
+Proof.
+  intros Hb Hne Hd H. destruct (process_err_shape em more c e Hb Hne H) as [_ [n [tl [x [y [r [Hn [E _]]]]]]]].
+  destruct n as [|n]; [lia|]. cbn in E. destruct n; cbn in E; eapply Hd; exact E.
+Qed.
+
+(* stream level: a byte stream without two adjacent ESC bytes never raises, however it is read *)
+Definition no_double_esc (l : list Z) : Prop := forall a b, l <> a ++ 27 :: 27 :: b.
+
+Lemma no_double_esc_suffix p l : no_double_esc (p ++ l) -> no_double_esc l.
+Proof. intros H a b E. apply (H (p ++ a) b). rewrite E, app_assoc. reflexivity. Qed.
+
+Lemma decode_no_err em more : forall codes e,
+  Forall is_byte codes -> no_double_esc codes -> decode em codes more <> PErr e.
+Proof.
+  apply (list_len_ind (fun codes => forall e, Forall is_byte codes -> no_double_esc codes ->
+           decode em codes more <> PErr e)).
+  intros codes IH e Hb Hd. destruct codes as [|c tl]; [rewrite decode_nil; discriminate|].
+  rewrite decode_cons by discriminate.
+  destruct (process_keyqueue em (c :: tl) more) as [[run rest]| |e'] eqn:E; try discriminate.
+  - destruct (process_progress _ _ _ _ _ E) as [_ [p [_ Hp]]].
+    assert (Hb' : Forall is_byte rest).
+    { rewrite Hp in Hb. apply Forall_app in Hb. tauto. }
+    assert (Hd' : no_double_esc rest) by (rewrite Hp in Hd; eapply no_double_esc_suffix; exact Hd).
+    pose proof (IH rest (process_shorter _ _ _ _ _ E) e Hb' Hd') as Hn.
+    destruct (decode em rest more); cbn; congruence.
+  - exfalso. eapply (process_no_err_unless_double_esc em (c :: tl) more e' Hb); [discriminate| |exact E].
+    intros t Et. apply (Hd [] t). exact Et.
+Qed.
+
+(* ------------------------------------------------------------------ *)
+(* exported forms *)
+Lemma decisive_proof em c evs rest :
+  process_keyqueue em c true = OOk (evs, rest) ->
+  forall d, process_keyqueue em (c ++ d) true = OOk (evs, rest ++ d).
+Proof.
+  intros H d. destruct c as [|code tl]; [cbn in H; discriminate|].
+  pose proof (process_ext em (code :: tl) d ltac:(discriminate)) as Hx. rewrite H in Hx. exact Hx.
+Qed.
+
+Lemma more_is_prefix_proof em c :
+  process_keyqueue em c true = OMore ->
+  forall c' d, c = c' ++ d -> c' <> [] -> process_keyqueue em c' true = OMore.
+Proof.
+  intros H c' d -> Hne. pose proof (process_ext em c' d Hne) as Hx.
+  destruct (process_keyqueue em c' true) as [[evs rest]| |e]; cbn [ext_res] in Hx; congruence.
+Qed.
+
+Lemma decided_ignores_flag_proof em c r :
+  process_keyqueue em c true = OOk r -> process_keyqueue em c false = OOk r.
+Proof. intros H. pose proof (process_flag em c) as Hf. rewrite H in Hf. exact Hf. Qed.
+
+Lemma no_double_esc_prefix l s : no_double_esc (l ++ s) -> no_double_esc l.
+Proof. intros H a b E. apply (H a (b ++ s)). rewrite E, <- app_assoc. reflexivity. Qed.
+
+Lemma run_no_err em : forall ops st,
+  Forall is_byte (st ++ concat (map feed_bytes ops)) ->
+  no_double_esc (st ++ concat (map feed_bytes ops)) ->
+  snd (run em st ops) = None.
+Proof.
+  induction ops as [|o ops IH]; intros st Hb Hd; [reflexivity|].
+  rewrite run_cons. cbn [map concat] in Hb, Hd. rewrite app_assoc in Hb, Hd.
+  assert (K : forall cs st', step em st o = Ok (cs, st') ->
+              snd (let '(cs', st'', e) := run em st' ops in (cs ++ cs', st'', e)) = None).
+  { intros cs st' Hs. pose proof (step_conserves _ _ _ _ _ Hs) as Hc.
+    specialize (IH st'). rewrite <- Hc, <- app_assoc in Hb, Hd.
+    apply Forall_app in Hb. destruct Hb as [_ Hb]. apply no_double_esc_suffix in Hd.
+    specialize (IH Hb Hd). destruct (run em st' ops) as [[a b] c]. exact IH. }
+  destruct o as [bs|].
+  - cbn [feed_bytes] in *. rewrite step_feed in *.
+    apply Forall_app in Hb. destruct Hb as [Hb _]. apply no_double_esc_prefix in Hd.
+    pose proof (decode_no_err em true (st ++ bs)) as Hn. pose proof (decode_not_fuel em true (st ++ bs)) as Hf.
+    destruct (decode em (st ++ bs) true) as [d|d r|e|]; try (apply K; reflexivity).
+    + exfalso. eapply Hn; [exact Hb|exact Hd|reflexivity].
+    + congruence.
+  - cbn [feed_bytes] in *. rewrite app_nil_r in Hb, Hd.
+    destruct st as [|c0 tl]; [apply K; reflexivity|].
+    pose proof (timeout_step em (c0 :: tl) ltac:(discriminate)) as Ht.
+    apply Forall_app in Hb. destruct Hb as [Hb _]. apply no_double_esc_prefix in Hd.
+    pose proof (decode_no_err em false (c0 :: tl)) as Hn.
+    destruct (decode em (c0 :: tl) false) as [d|d r|e|]; try contradiction.
+    + rewrite Ht. apply (K _ _ Ht).
+    + exfalso. eapply Hn; [exact Hb|exact Hd|reflexivity].
 Qed.
